@@ -1184,7 +1184,7 @@ theorem prefix_behaviour {α} (rd : Rd α) (wr : α → Stream) (valid : α → 
 def Dbl17 (io : DblIO D) : Prop := ∀ p, 17 ≤ p → ∀ d, RT io p d
 
 /-- the writer precisions found in the source by tools/extract_c17.py -/
-def genPrec : Prec := ⟨AITB.Gen.IOPrec.scalar, AITB.Gen.IOPrec.dense, AITB.Gen.IOPrec.sparse, AITB.Gen.IOPrec.pomdpPolicy⟩
+def genPrec : Prec := ⟨AITB.Gen.IOPrec.scalar, AITB.Gen.IOPrec.dense, AITB.Gen.IOPrec.sparse, AITB.Gen.IOPrec.pomdpPolicy, AITB.Gen.IOPrec.vector⟩
 
 /-- obligation over the regenerated module: the shared writers of src/Utils/IO.cpp print at `max_digits10` -/
 theorem IOPrec_utils_ge_17 : 17 ≤ AITB.Gen.IOPrec.scalar ∧ 17 ≤ AITB.Gen.IOPrec.vector ∧ 17 ≤ AITB.Gen.IOPrec.dense ∧
@@ -1271,7 +1271,7 @@ def reloadsB (pr : Prec) (vf : VF Rat) : Bool :=
   | .bad _ => false
 /-- it is a valid policy that does not survive the writer at 6 digits (at 17 it does, by `roundtrip_ppol`) -/
 theorem ppol_prec6_counterexample :
-    ppolValidB (ratIO 0) 2 2 2 vfWitness = true ∧ reloadsB ⟨17, 17, 17, 6⟩ vfWitness = false := by decide +kernel
+    ppolValidB (ratIO 0) 2 2 2 vfWitness = true ∧ reloadsB ⟨17, 17, 17, 6, 17⟩ vfWitness = false := by decide +kernel
 
 /-- a visit count of 2^53 + 1 does not survive the detour through `double`, and does survive an integer read -/
 theorem count_via_double_counterexample : ¬ CountRT (ratIO 0) true 9007199254740993 := by
@@ -1594,5 +1594,32 @@ theorem truncated_rejected_ps {M} (io : DblIO D) (pr : Prec) (rdM : Rd M) (wrM :
     (ho : ∀ t ∈ x.2, ∀ e ∈ t, RT io pr.sparse e.v) (dest : M × List (SpMat D)) (p q : Stream) (hpq : wrPS io pr wrM x = p ++ q) (hq : q ≠ []) :
     (load (rdPS io rdM S A O) dest p).sig ≠ none ∧ (load (rdPS io rdM S A O) dest p).dest = dest :=
   truncated_load_rejected _ _ (ext_rdPS io rdM hext S A O) x (roundtrip_ps io pr rdM wrM vM S A O x hv hdim hM ho) dest p q hpq hq
+
+/-! ### `read(is, Vector &)` / `write(os, const Vector &)` -/
+
+theorem roundtrip_vec (io : DblIO D) (pr : Prec) (n : Nat) (v : List D) (hl : v.length = n) (h : ∀ d ∈ v, RT io pr.vector d) :
+    RoundTrips (rdVec io n) (wrVec io pr.vector) v := rt_vec io pr.vector n v hl h
+theorem rdVec_ok (io : DblIO D) (n : Nat) (s s' : Stream) (v : List D) (h : rdVec io n s = .ok v s') : v.length = n :=
+  (rep_ok (rdD io) (fun _ => True) (fun _ _ _ _ => trivial) n s v s' h).1
+theorem ext_rdVec (io : DblIO D) (n : Nat) : Ext (rdVec io n) := ext_rep _ (ext_rdD io) n
+
+/-! ### decisions -/
+
+def reloaded (pr : Prec) (vf : VF Rat) : VF Rat :=
+  match rdPPol (ratIO 0) 2 2 2 (wrPPol (ratIO 0) pr vf) with
+  | .ok y _ => y
+  | .bad _ => []
+
+/-- identical tables give identical decisions at every belief and horizon (decisions are a function of the table) -/
+theorem decisions_of_roundtrip (io : DblIO Rat) (pr : Prec) (S A O : Nat) (vf dest : VF Rat)
+    (h : RoundTrips (rdPPol io S A O) (wrPPol io pr) vf) (rest : Stream) (hz : Nat) (b : List Rat) :
+    decision (load (rdPPol io S A O) dest (wrPPol io pr vf ++ rest)).dest hz b = decision vf hz b := by
+  rw [load_roundtrip _ _ vf h dest rest]
+
+/-- the witness policy decides action 1 (entry 1) at the corner belief (1,0); written with 6 digits and read back it
+    decides action 0 (entry 0) -/
+theorem ppol_prec6_decision_counterexample :
+    decision vfWitness 1 [1, 0] = some (1, 1) ∧ decision (reloaded ⟨17, 17, 17, 6, 17⟩ vfWitness) 1 [1, 0] = some (0, 0) := by
+  decide +kernel
 
 end AITB.Codec
